@@ -594,6 +594,10 @@ func (f *Frame) resolveMod(m string, env map[string]Val, st *State) []modEntry {
 		hn := un.elemHeap(sl.Elem())
 		un.heapInit(hn, ArrSort(SInt, ArrSort(SInt, un.u.SortOf(sl.Elem()))))
 		return []modEntry{{heap: hn, ref: SBase(cv.T), rows: true}}
+	case m == "newrows(bytes)":
+		hn := un.elemHeap(types.Typ[types.Uint8])
+		un.heapInit(hn, ArrSort(SInt, ArrSort(SInt, SInt)))
+		return []modEntry{{heap: hn, rows: true}}
 	case strings.HasPrefix(m, "newrows(") && strings.HasSuffix(m, ")"):
 		e, err := ParseExpr(m[8 : len(m)-1])
 		if err != nil {
@@ -668,6 +672,40 @@ func (f *Frame) resolveMod(m string, env map[string]Val, st *State) []modEntry {
 		un.heapInit(dn, ArrSort(SInt, ArrSort(ks, SBool)))
 		un.heapInit(vn, ArrSort(SInt, ArrSort(ks, vs)))
 		return []modEntry{{heap: dn}, {heap: vn}}
+	case strings.HasPrefix(m, "newmaps(") && strings.HasSuffix(m, ")"):
+		// maps of the type of the expression that are allocated by the callee
+		e, err := ParseExpr(m[8 : len(m)-1])
+		if err != nil {
+			f.fail("modifies %s: %v", m, err)
+		}
+		cv := f.eval(e, &evalCtx{env: env, cur: st, old: st})
+		mt, ok := cv.Go.Underlying().(*types.Map)
+		if !ok {
+			f.fail("modifies %s: not a map", m)
+		}
+		dn, vn := un.mapHeaps(cv.Go)
+		ks, vs := un.u.SortOf(mt.Key()), un.u.SortOf(mt.Elem())
+		un.heapInit(dn, ArrSort(SInt, ArrSort(ks, SBool)))
+		un.heapInit(vn, ArrSort(SInt, ArrSort(ks, vs)))
+		return []modEntry{{heap: dn, rows: true}, {heap: vn, rows: true}}
+	case strings.HasPrefix(m, "newobjs(") && strings.HasSuffix(m, ")"):
+		// every field (ghost fields included) of the object itself and of objects of its type allocated by the callee
+		e, err := ParseExpr(m[8 : len(m)-1])
+		if err != nil {
+			f.fail("modifies %s: %v", m, err)
+		}
+		cv := f.eval(e, &evalCtx{env: env, cur: st, old: st})
+		T, sty := derefStruct(cv.Go)
+		if sty == nil {
+			f.fail("modifies %s: not a struct pointer", m)
+		}
+		var out []modEntry
+		for _, fi := range un.sinfo(T).fields {
+			hn := un.fieldHeap(T, fi.name)
+			un.heapInit(hn, ArrSort(SInt, fi.sort))
+			out = append(out, modEntry{heap: hn, ref: cv.T, rows: true})
+		}
+		return out
 	case strings.HasPrefix(m, "fields(") && strings.HasSuffix(m, ")"):
 		e, err := ParseExpr(m[7 : len(m)-1])
 		if err != nil {
